@@ -118,8 +118,7 @@ def check(run):
             if k < len(mo):
                 run.sample({"case": next_case(flat, k), "model": mo[k][:120], "impl": io[k][:120]})
     report_diffs(run, diffs, "coq/Codec.v parse_enum", "the parsers generated by #[derive(ZvtEnum)]", "codec")
-    if any(not v.get("no_failing_input_found") for v in run.violations):
-        run.violations = [v for v in run.violations if not v.get("no_failing_input_found")]
+    vlib.prefer_concrete(run)
     return vlib.finish(run, trusted_base=TB, assumptions=["reply-set table is my transcription of the specification"])
 
 
